@@ -723,6 +723,7 @@ func (s *sharedEntryAttributes) tryLoadingDefault(ctx context.Context, path []st
 
 	flags := NewUpdateInsertFlags()
 
+	verifYieldAt("tree.trydefault", s)
 	result, err := s.AddCacheUpdateRecursive(ctx, upd, flags)
 	if err != nil {
 		return nil, fmt.Errorf("failed adding default value for %s to tree; %v", strings.Join(path, "/"), err)
@@ -775,6 +776,7 @@ func (s *sharedEntryAttributes) tryLoading(ctx context.Context, path []string) (
 	}
 	flags := NewUpdateInsertFlags()
 
+	verifYieldAt("tree.tryload", s)
 	_, err = s.treeContext.root.AddCacheUpdateRecursive(ctx, upd, flags)
 	if err != nil {
 		return nil, err
@@ -863,6 +865,7 @@ func (s *sharedEntryAttributes) Validate(ctx context.Context, resultChan chan<- 
 	for _, c := range s.filterActiveChoiceCaseChilds() {
 		wg.Add(1)
 		valFunc := func(x Entry) {
+			verifYieldAt("tree.validate", x)
 			x.Validate(ctx, resultChan, vCfg)
 			wg.Done()
 		}
@@ -1480,6 +1483,7 @@ func (s *sharedEntryAttributes) AddCacheUpdateRecursive(ctx context.Context, c *
 	// continue with recursive add otherwise
 	if idx == len(c.GetPath()) {
 		// delegate update handling to leafVariants
+		verifYieldAt("tree.leafadd", s)
 		s.leafVariants.Add(NewLeafEntry(c, flags, s))
 		return s, nil
 	}
@@ -1489,6 +1493,7 @@ func (s *sharedEntryAttributes) AddCacheUpdateRecursive(ctx context.Context, c *
 	var exists bool
 	// if child does not exist, create Entry
 	if e, exists = s.childs.GetEntry(c.GetPath()[idx]); !exists {
+		verifYieldAt("tree.newentry", s)
 		e, err = newEntry(ctx, s, c.GetPath()[idx], s.treeContext)
 		if err != nil {
 			return nil, err
